@@ -1,5 +1,6 @@
 import PebblesVerif.Props.C03
 import PebblesVerif.Proofs.TypeURLMap
+import PebblesVerif.Proofs.MergeRoutes
 /-!
 # C04 — the routing table names a real owner for every routable field
 
@@ -83,6 +84,16 @@ theorem C04_root_owner (ins : List MergeInput) (R : Schema) (h : mergeSchema fac
   · rw [← hij]; exact hu
   · rw [C04_facts] at h
     exact absurd (pairwise_mem (root_fields_disjoint h hroot hnd) hi hj hij T f hT hb hdecl hdj) hf
+
+/-- C04, Node types: after a successful merge every non-`id` field that a service declares on a
+    type it declares as a Node type is routed to that service (no other service declares it). Full. -/
+theorem C04_node_field_owner (ins : List MergeInput) (R : Schema) (h : mergeSchema facts ins = .ok R)
+    (hroot : ∀ i ∈ ins, RootsAreObjects i.schema) (hnd : ∀ i ∈ ins, TypesNodup i.schema)
+    (i : MergeInput) (hi : i ∈ ins) (T f : String) (hs : Stores facts i.schema.types T f) (hN : NodeObj i T)
+    (hrT : isRootName T = false) (hNT : T ≠ nodeInterfaceName) (hb : isBuiltinName f = false) :
+    Tum.get? (build facts ins) T f = some i.url := by
+  rw [C04_facts] at h hs ⊢
+  exact node_route_E h hroot hnd hi hs hN hrT hNT hb
 
 /-- C04, stitchable flag (table form): the table marks `T` iff some input declares `T` as an
     object implementing `Node`. Full. -/
